@@ -871,4 +871,37 @@ theorem reachable_cacheValid {ops : Ops F64 R Q U} {sig : Q → H} {eqH : H → 
 
 end Reach
 
+/-! ## Reset of a pooled `BondContainer` -/
+section BcReset
+variable {F64 K : Type}
+
+theorem foldl_unmap_getElem? (idx : K → Nat) (keys : List (K × F64)) (m : List (Option Nat)) (i v : Nat)
+    (h : (keys.foldl (fun m k => m.set (idx k.1) none) m)[i]? = some (some v)) :
+    m[i]? = some (some v) ∧ ∀ k ∈ keys, idx k.1 ≠ i := by
+  induction keys generalizing m with
+  | nil => exact ⟨h, fun _ hk => by simp at hk⟩
+  | cons k ks ih =>
+    simp only [List.foldl_cons] at h
+    obtain ⟨h1, h2⟩ := ih _ h
+    rw [List.getElem?_set] at h1
+    split at h1
+    · split at h1 <;> simp at h1
+    · rename_i hne
+      exact ⟨h1, fun k' hk' => by
+        rcases List.mem_cons.mp hk' with rfl | hk''
+        · exact hne
+        · exact h2 k' hk''⟩
+
+/-- **a reset container is observably `Default`** — no keys, total weight EXACTLY zero (whatever floating-point
+residue `remove()` left), nothing mapped; the last part needs the container's own map invariant. -/
+theorem bcClear_clean (zero : F64) (idx : K → Nat) (bc : BondContainer F64 K) (hinv : bcMapInv idx bc) :
+    bcClean zero (bcClear zero idx bc) := by
+  refine ⟨rfl, rfl, ?_⟩
+  intro i v h
+  obtain ⟨h1, h2⟩ := foldl_unmap_getElem? idx bc.keys bc.map i v h
+  obtain ⟨k, hk, hki⟩ := hinv i v h1
+  exact h2 k hk hki
+
+end BcReset
+
 end Qmc.Snap
